@@ -37,8 +37,9 @@ class _BaseLSML(MahalanobisMixin):
     if weights is None:
       self.w_ = np.ones(vab.shape[0])
     else:
-      self.w_ = weights
-    self.w_ /= self.w_.sum()  # weights must sum to 1
+      # a float copy: the caller's weights (array or list) are left untouched
+      self.w_ = np.array(weights, dtype=float)
+    self.w_ = self.w_ / self.w_.sum()  # weights must sum to 1
     M, prior_inv = _initialize_metric_mahalanobis(
         quadruplets, self.prior,
         return_inverse=True, strict_pd=True, matrix_name='prior',
